@@ -840,6 +840,7 @@ class KToSparse(K):
     def make(self, cell, rng):
         zp = {"none": 0.0, "some": 0.6, "all": 1.0}[cell["zeros"]]
         d = rand_ints(rng, tuple(cell["shape"]), 1, 5, zero_p=zp)
+        d["data"] = [v if rng.random() < 0.5 else -v for v in d["data"]]     # both signs: `ne(0)` is not `gt(0)`
         return {"D": d}
 
     def impl(self, case, dtype):
